@@ -593,7 +593,8 @@ def tagged_case(
     pool = {h: list(NAME_TAGS) for h in (haps or [None])}
     used = []
     for s in final:
-        if s["painted"] and (draw(st.integers(0, 4)) == 0 or (two and used and s["hap"] == haps[1] and draw(st.booleans()))):
+        # (a name tag without Painted, 1 in 8 of the unpainted scaffolds: still a named chromosome)
+        if (s["painted"] or (s["rows"] and not two and draw(st.integers(0, 7)) == 0)) and (draw(st.integers(0, 4)) == 0 or (two and used and s["hap"] == haps[1] and draw(st.booleans()))):
             p = pool.setdefault(s["hap"], list(NAME_TAGS))
             if two and used and draw(st.integers(0, 2)) > 0 and used[-1] in p:
                 # the same chromosome (e.g. X) painted in both haplotypes
